@@ -223,6 +223,24 @@ def py_flipmap(res: Result, chip, page):
             ctl.write(0x2000 | sel | 2, 0)
             res.monitor("py_pixel_map")
             res.nontrivial("pyflip", chip, page, col, bit)
+    # a pixel is determined by ITS VRAM bit alone: switching the OTHER chip off (single-chip select) must not take away
+    # or move the pixels this chip owns (sampled columns, all 8 bits)
+    other = 0x4 if chip == 0 else 0x8
+    ctl.write(0x2000 | other, 0x3E)
+    base_off = ctl.get_display_buffer().copy()
+    for col in (0, 1, 7, 8, 31, 55, 56, 63):
+        for bit in range(8):
+            ctl.write(0x2000 | sel, 0x80 | page)
+            ctl.write(0x2000 | sel, 0x40 | col)
+            ctl.write(0x2000 | sel | 2, 1 << bit)
+            d = [(int(a), int(b)) for a, b in np.argwhere(base_off != ctl.get_display_buffer())]
+            ctl.write(0x2000 | sel, 0x40 | col)
+            ctl.write(0x2000 | sel | 2, 0)
+            res.monitor("py_pixel_map_other_chip_off")
+            want = owners[col * 8 + bit][4]
+            if d != want:
+                res.violation({"clause": "pixel_depends_on_other_chip_power", "model": "py"},
+                              {"chip": chip, "page": page, "col": col, "bit": bit}, {"both_on": want[:4], "other_off": d[:4]})
     return owners
 
 
